@@ -344,6 +344,10 @@ func PbDecodeNodeRequest(buf []byte) (NodeEdge, error) {
 		return NodeEdge{}, errors.New(pbNodeRequest.Error)
 	}
 
+	if pbNodeRequest.Node == nil {
+		return NodeEdge{}, errors.New("node request reply contains neither a node nor an error")
+	}
+
 	return PbToNode(pbNodeRequest.Node)
 }
 
